@@ -9,10 +9,12 @@
   `family ∈ {assert, other, key, index, type}` is the exception class family
   (AssertionError / AttributeError+StopIteration / KeyError / IndexError / TypeError), never the message.
 
-  `cfg.outerPinFix = true`  is the comparer AS REPAIRED by docs/fixes/compare_outer_pins.diff
-  (`compare` below, the function the C20 theorems are about);
-  `cfg.outerPinFix = false` is the pinned commit, whose `compare_outer_pins` compares the original's
-  inner pin with itself (`compareUnrepaired`, kept for the `decide`d counterexample in Props/C20).
+  `Cfg` says which repairs are in (`outerPinFix`: docs/fixes/compare_outer_pins.diff, landed in /repo;
+  `drcFix`: compare_port_pins.diff; `noneNameFix`: compare_unnamed_instance.diff).
+  `compare = compareWith cfgFixed` (all in) is the function the C20 theorems are about;
+  `compareUnrepaired = compareWith cfgPinned` is the pinned commit, kept for the `decide`d witnesses of
+  its defects in Props/C20 (it compares the original's inner pin with itself, asserts that ports have
+  at least one pin, and calls `None.startswith` for a net on an unnamed instance).
 
   Look-ups `next(sdn.get_X(parent, name))` are modelled as "first sibling whose name equals `name`,
   StopIteration if there is none" — this is what the namespace index returns on an indexed parent
